@@ -250,6 +250,10 @@ func (p *Program) runOnce(w *Worker, fn *ssa.Function, prefix []decision, opts O
 				if !x.dead && r.reason != "assumption unsatisfiable" {
 					res.aborted = r.reason
 				}
+				if x.budgetHit && !x.dead {
+					// a candidate for non-termination: confirmed only if the native replay does not finish either
+					x.Viol = append(x.Viol, Violation{Kind: "budget", Msg: "does not finish within the instruction budget (possible non-termination)", Model: x.modelQuiet(), Path: append([]decision{}, x.taken...)})
+				}
 			case targetPanic:
 				if !x.expectPanic(toString(r.v)) {
 					x.Viol = append(x.Viol, Violation{Kind: "panic", Msg: clip(toString(r.v), 200), Model: x.model(), Path: append([]decision{}, x.taken...)})
